@@ -54,7 +54,7 @@ def run(m, chk):
         "(the second index of the evaluator built in eval depends on self.degree); the evaluator's result depends on nodes, knot vector, both indices and weights; span(nodes) precedes the table lookup so outside nodes raise "
         "ValueError which escapes. The values (non-negativity, support, partition of unity) and negative-index / slice semantics are not decided."
     )
-    chk.decides = ["INDEX-RANGE (the validators accept exactly -npts .. npts-1 and 0 .. degree)", "GATE(index validators)", "DEP-MAY", "GATE-SPAN", "X-ESCAPE", "PURE", "FRESH-EVALUATOR (f(u) applies an evaluator built in the same call, never a kept one)"]
+    chk.decides = ["SLICE-REBUILD (a slice index resolved against npts is never rebuilt with slice(*s.indices(n)), which loses negative steps)", "INDEX-RANGE (the validators accept exactly -npts .. npts-1 and 0 .. degree)", "GATE(index validators)", "DEP-MAY", "GATE-SPAN", "X-ESCAPE", "PURE", "FRESH-EVALUATOR (f(u) applies an evaluator built in the same call, never a kept one)"]
     chk.not_decided = ["Function(U)[i, j](u) = N_i,j(u) as values", "partition of unity", "negative indices / slices select the right rows"]
     ctx = r.root(GI)
     build = [c for c in ctx.calls if any(f.qual == FE + "__init__" for f in c.callees)]
@@ -69,6 +69,9 @@ def run(m, chk):
             raised = {raised_type(n) for n in ast.walk(fi.node) if isinstance(n, ast.Raise)}
             ok = set(excs) <= raised
             chk.ob("GATE-INDEX", f"{fi.qual} raises {' and '.join(excs)}", ok, loc=f"functions.py:{fi.node.lineno}", detail="" if ok else f"{fi.qual} raises only {sorted(x for x in raised if x)}", func=fi.qual, construct="validator exception types")
+    from .extra import slice_rebuild
+
+    slice_rebuild(r, chk, ["functions"])
     # f(u) = f[:, degree](u)
     eq = F + "IndexableFunction.eval"
     c2 = r.root(eq)
